@@ -21,7 +21,9 @@
 // After every move the worker waits until all asynchronously received states have been merged (see
 // worker.go settle) and reports ReadValue of every replica, the snapshot every replica would hand to a
 // peer, what X's server received, and the accessor dump.  After the moves a fair suffix runs: sections
-// still in flight commit, X sends its state to everyone, then three rounds of ticks at every replica.
+// still in flight commit, rounds still in flight are delivered, X sends its state to everyone, then three
+// rounds of ticks at every replica.  A second, small configuration (stall.go) has two scripted peers
+// that can stay silent beyond a short send timeout.
 package c13
 
 import (
